@@ -52,7 +52,9 @@ def eng_key(s):
     return repr([zcmp.strip(v) for v in s])
 
 
-def check_case(d, prog, stacks, rng_seed):
+def check_case(d, prog, stacks, rng_seed, fuel=None, maxres=None, timeout=30.0, mbudget=200000):
+    fuel = fuel or FUEL
+    maxres = maxres or MAXRES
     """Returns (list of (kind, detail), stats)"""
     bad = []
     info = {"o1": 0, "o1_skipped": 0, "o2": 0, "nres": 0}
@@ -60,7 +62,7 @@ def check_case(d, prog, stacks, rng_seed):
     G = producer(rng, stacks) if stacks else ("cat", [])
     whole = ("cat", [G, prog]) if stacks else prog
     txt = zast.text(whole)
-    r = d.run(txt, fuel=FUEL, max=MAXRES)
+    r = d.run(txt, fuel=fuel, max=maxres, timeout=timeout)
     if r["evbad"]:
         bad.append(("api-contract", dict(text=txt, ev=r["ev"])))
     if r["stray"]:
@@ -69,7 +71,7 @@ def check_case(d, prog, stacks, rng_seed):
         info["fuel"] = 1
         return bad, info
     # ---- O1
-    m = M.run(whole)
+    m = M.run(whole, budget=mbudget)
     if m["status"] in ("indeterminate", "budget"):
         info["o1_skipped"] = 1
     else:
@@ -88,7 +90,7 @@ def check_case(d, prog, stacks, rng_seed):
         ok = True
         for s in stacks:
             t1 = zast.text(("cat", [("cat", list(s)), prog]))
-            r1 = d.run(t1, fuel=FUEL, max=MAXRES)
+            r1 = d.run(t1, fuel=fuel, max=maxres, timeout=timeout)
             if r1["st"] in ("reject", "cut") or (r1["st"] == "error" and "fuel" in r1["msg"]):
                 ok = False
                 break
@@ -192,7 +194,7 @@ def job(payload):
             out["samples"].append(zast.text(("cat", [producer(random.Random(1), stacks), prog])) if stacks else txt)
         for what, detail in bad:
             # minimise for a stable key
-            if len(out["bad"]) < 6:
+            if len(out["bad"]) < 2:
                 small = minimise(d, prog, stacks, what)
                 detail["minimised"] = zast.text(small)
                 out["bad"].append((what, detail))
@@ -205,10 +207,15 @@ def job(payload):
 
 def minimise(d, prog, stacks, what):
     def pred(c):
-        bad, _ = check_case(d, c, stacks, 1)
+        # shrinking can produce programs whose every step is expensive (ever deeper sequences): small budgets,
+        # short watchdog, and a timeout just means "not a smaller witness"
+        try:
+            bad, _ = check_case(d, c, stacks, 1, fuel=3000, maxres=300, timeout=4.0, mbudget=20000)
+        except (common.DriverTimeout, common.DriverCrash):
+            return False
         return any(w == what for w, _ in bad)
     try:
-        return zast.minimize(prog, pred, budget=150)
+        return zast.minimize(prog, pred, budget=80)
     except Exception:
         return prog
 
